@@ -87,6 +87,8 @@ type dsListener struct {
 }
 
 type dsWorld struct {
+	straightReturn bool
+	atCloseReturn  string
 	lksLate        bool
 	w              *World
 	r              *simkit.Run
@@ -453,6 +455,12 @@ func runDsync(r *simkit.Run, c Cfg, mode dsMode) {
 			})
 		}
 	}
+	if mode.closing && tp.Chance(1, 2, "close.straightReturn") {
+		// nothing is scheduled between the last thing Close does and its
+		// return: what is still alive at that moment is seen as it is
+		r.SkipPoint = func(site, who string) bool { return site == "close.step" && who == "6" }
+		d.straightReturn = true
+	}
 	if mode.closing {
 		d.closers = tp.Range(1, 3, "nClosers")
 		for i := 0; i < d.closers; i++ {
@@ -462,6 +470,21 @@ func runDsync(r *simkit.Run, c Cfg, mode dsMode) {
 				t.Logf("Close()")
 				err := d.sub.Sub.Close()
 				d.closeReturns++
+				d.closeDone = true
+				if d.atCloseReturn == "" && d.straightReturn {
+					// the instant Close returns, before anything else runs:
+					// which goroutines started by the subscriber are alive?
+					for _, g := range simkit.DumpBubble() {
+						i := strings.LastIndex(g.Stack, "created by ")
+						if i >= 0 && strings.Contains(g.Stack[i:], "github.com/ipni/go-libipni/dagsync.") && !strings.Contains(g.Stack, "verif/sim/") {
+							d.atCloseReturn = fmt.Sprintf("%s [%s]", g.TopFunc(), g.State)
+							break
+						}
+					}
+					if d.atCloseReturn == "" {
+						d.atCloseReturn = "-"
+					}
+				}
 				if d.closeRetStep == 0 {
 					d.closeRetStep = r.Step()
 					d.hooksAtClose = len(d.sub.Hooks())
@@ -550,6 +573,14 @@ func runDsync(r *simkit.Run, c Cfg, mode dsMode) {
 					return &simkit.Action{Name: "hold " + p.Site, Do: nil}
 				}
 			case "listener.add", "listener.cancel":
+				if parked && p.Site == "listener.cancel" && ctl == 0 && d.evInFlight > 0 && d.sendersReturned() {
+					// Not a race by the API: the syncs whose notifications
+					// the distributor has not picked up yet have returned
+					// to their callers. A listener cancelled from here on
+					// was registered and not cancelled when they finished.
+					r.Probe("listener-cancelled-after-sync-returned-before-distributor-took-its-notification")
+					break
+				}
 				if parked && (d.evInFlight > 0 || ctl > 0) {
 					return &simkit.Action{Name: "hold " + p.Site, Do: nil}
 				}
@@ -1050,6 +1081,32 @@ func (d *dsWorld) d8Applies(order []*syncRec, pub *PubNode) bool {
 	return false
 }
 
+// sendersReturned reports whether every notification that was sent but not
+// yet taken by the distributor comes from an explicit sync whose call has
+// returned to the harness task that made it.
+func (d *dsWorld) sendersReturned() bool {
+	for _, sd := range d.sends[len(d.sends)-d.evInFlight:] {
+		ok := false
+		for _, t := range d.r.Tasks() {
+			if t.GID != sd.gid {
+				continue
+			}
+			if t.Done() {
+				ok = true
+			}
+			for _, q := range d.r.AllParked() {
+				if q.GID == sd.gid && q.Site == "op" {
+					ok = true
+				}
+			}
+		}
+		if !ok {
+			return false
+		}
+	}
+	return true
+}
+
 func (d *dsWorld) finalChecks() {
 	r, w, o := d.r, d.w, d.mode.name
 	closed := d.closeCalled
@@ -1300,6 +1357,9 @@ func (d *dsWorld) closeChecks() {
 	if d.closeReturns != d.closers {
 		r.Violate(o+".close", "%d of %d Close calls returned", d.closeReturns, d.closers)
 		return
+	}
+	if d.atCloseReturn != "-" && d.atCloseReturn != "" {
+		r.Violate(o+".leak", "at the moment Close returned a goroutine started by the subscriber was still alive: %s", d.atCloseReturn)
 	}
 	// no store write after Close returned
 	for _, op := range d.sub.Store.Ops()[d.storeOpsAtClose:] {
